@@ -12,7 +12,7 @@ from time import time
 
 from circuits.net.sockets import BUFSIZE
 
-from .constants import HTTP_STATUS_CODES, SERVER_VERSION
+from .constants import HTTP_STATUS_CODES, SERVER_PROTOCOL, SERVER_VERSION
 from .errors import httperror
 from .headers import Headers
 from .url import parse_url
@@ -293,7 +293,9 @@ class Response:
 
         self.cookie = self.request.cookie
 
-        self.protocol = 'HTTP/%d.%d' % self.request.protocol
+        # never claim more than the server speaks (e.g. error responses to
+        # a request line with another major version)
+        self.protocol = 'HTTP/%d.%d' % min(tuple(self.request.protocol), SERVER_PROTOCOL)
 
     def __repr__(self):
         return '<Response %s %s (%d)>' % (
